@@ -309,7 +309,7 @@ func (f *fragmentList) build(in *layers.IPv4) (*layers.IPv4, error) {
 		Version:    in.Version,
 		IHL:        in.IHL,
 		TOS:        in.TOS,
-		Length:     f.Highest,
+		Length:     uint16(in.IHL)*4 + f.Highest,
 		Id:         in.Id,
 		Flags:      0,
 		FragOffset: 0,
